@@ -5,8 +5,8 @@ import (
 )
 
 var (
-	resp2XXCodes       = []codes.Code{codes.Created, codes.Deleted, codes.Valid, codes.Changed, codes.Content}
-	resp4XXCodes       = []codes.Code{codes.BadRequest, codes.Unauthorized, codes.BadOption, codes.Forbidden, codes.NotFound, codes.MethodNotAllowed, codes.NotAcceptable, codes.PreconditionFailed, codes.RequestEntityTooLarge, codes.UnsupportedMediaType}
+	resp2XXCodes       = []codes.Code{codes.Created, codes.Deleted, codes.Valid, codes.Changed, codes.Content, codes.Continue}
+	resp4XXCodes       = []codes.Code{codes.BadRequest, codes.Unauthorized, codes.BadOption, codes.Forbidden, codes.NotFound, codes.MethodNotAllowed, codes.NotAcceptable, codes.RequestEntityIncomplete, codes.PreconditionFailed, codes.RequestEntityTooLarge, codes.UnsupportedMediaType, codes.TooManyRequests}
 	resp5XXCodes       = []codes.Code{codes.InternalServerError, codes.NotImplemented, codes.BadGateway, codes.ServiceUnavailable, codes.GatewayTimeout, codes.ProxyingNotSupported}
 	noResponseValueMap = map[uint32][]codes.Code{
 		2:  resp2XXCodes,
@@ -41,12 +41,21 @@ func decodeNoResponseOption(v uint32) []codes.Code {
 // IsNoResponseCode validates response code against NoResponse option from request.
 // https://www.rfc-editor.org/rfc/rfc7967.txt
 func IsNoResponseCode(code codes.Code, noRespValue uint32) error {
-	suppressedCodes := decodeNoResponseOption(noRespValue)
-
-	for _, suppressedCode := range suppressedCodes {
-		if suppressedCode == code {
-			return ErrMessageNotInterested
-		}
+	// RFC 7967 section 2.1 suppresses whole response classes (2.xx, 4.xx, 5.xx),
+	// not individual codes: the class is the upper three bits of the code byte.
+	var classBit uint32
+	switch code >> 5 {
+	case 2:
+		classBit = 2
+	case 4:
+		classBit = 8
+	case 5:
+		classBit = 16
+	default:
+		return nil
+	}
+	if noRespValue&classBit != 0 {
+		return ErrMessageNotInterested
 	}
 	return nil
 }
